@@ -3,9 +3,22 @@
 package c06
 
 import (
+	"flag"
+	"os"
 	"testing"
 
 	"verifharness/internal/stats"
 )
 
-func TestMain(m *testing.M) { stats.Main(m) }
+func TestMain(m *testing.M) {
+	flag.Parse()
+	if os.Getenv("VERIF_C06_API") == "1" {
+		startAPI()
+	}
+	code := m.Run()
+	stats.Flush(code)
+	if apiTmpDir != "" {
+		_ = os.RemoveAll(apiTmpDir)
+	}
+	os.Exit(code)
+}
